@@ -705,6 +705,8 @@ def dispatch(func, args, kwargs):
 
     pargs = _tree_map(to_payload, args)
     pkwargs = _tree_map(to_payload, kwargs)
+    if mutated is not None and "out" in pkwargs and kwargs.get("out") is mutated:
+        pkwargs.pop("out")  # out= overload: the functional kernel computes, the result is stored into `out` below
     res = k(mo, *pargs, **pkwargs)
 
     if mutated is not None:
